@@ -125,3 +125,82 @@ void h_C11_eject(void)
 	ASSERT(get_task(k) == kt, "cancel never touches another task");
 	SENTINEL("eject");
 }
+
+/* ---- adding / replacing a task: _inject_task1
+ * getpwuid is a stub: every uid below 70000 exists (home "/", shell "sh").
+ * Two concrete home-slot situations keep the table size constant (see
+ * put_slot): the key 0x15 is already queued (replace path), or slot 5 is
+ * empty (new task). */
+#if !defined REPLAY
+# include <pwd.h>
+static struct passwd g_pw;
+struct passwd *getpwuid(uid_t u) { if (u >= 70000U) { return NULL; } g_pw.pw_uid = u; g_pw.pw_gid = u; g_pw.pw_dir = "/"; g_pw.pw_shell = "sh"; return &g_pw; }
+struct passwd *getpwnam(const char *n) { (void)n; return NULL; }
+static unsigned g_starts;
+void ev_periodic_start(struct ev_loop *l, ev_periodic *w) { (void)l; (void)w; g_starts++; }
+int echs_task_rset_ownr(echs_task_t t, unsigned int uid) { ((struct echs_task_s*)deconst(t))->owner = nummapstr_bang_num(uid); return 0; }
+#endif
+static struct echs_task_s g_new;
+static struct _task_s g_spare;
+static struct { echs_evstrm_class_t class; } g_strm;
+
+void h_C11_inject(void)
+{
+	IN16(o);
+	IN(uint64_t, k);
+	IN_RANGE(unsigned, owner, 0, 69999);	/* owner of the queued task (replace path) */
+	IN_RANGE(unsigned, requester, 0, 69999);
+	IN_RANGE(size_t, nsim, 0, 62);
+	IN_BOOL(has_strm);
+	BUILD_TABLE(o);
+#if defined HOME_SAME
+	const uint64_t oid = 0x15ULL;
+	task_ht[5].oid = oid;
+	task_ht[5].t = &g_tasks[5];
+	g_etasks[5].oid = oid;
+	g_etasks[5].owner = nummapstr_bang_num(owner);
+	g_tasks[5].nsim = nsim;
+	g_tasks[5].dflt_cred.wd = NULL, g_tasks[5].dflt_cred.sh = NULL;
+#else
+	const uint64_t oid = 0x25ULL;	/* concrete key, home slot 5 (keeps the table size a constant) */
+	task_ht[5].oid = 0U;
+	task_ht[5].t = NULL;
+#endif
+	ASSUME(k != 0U && k != oid);
+	free_tasks = &g_spare, nfree_tasks = 1U;
+	memset(&g_new, 0, sizeof(g_new));
+	g_new.oid = oid;
+	g_new.owner = NUMMAPSTR_NAN;	/* the submitted text names no owner: the connection's uid counts */
+	g_new.strm = has_strm ? (echs_evstrm_t)&g_strm : NULL;
+	memset(&meself, 0, sizeof(meself));	/* the daemon runs as root */
+	_task_t kt = spec_lookup(k);
+	_task_t ot = spec_lookup(oid);
+	g_stops = g_starts = g_tfrees = 0U;
+	int r = _inject_task1(NULL, &g_new, (uid_t)requester);
+	ASSERT(get_task(k) == kt, "add/replace never touches another task");
+	if (!has_strm) {
+		ASSERT(r < 0 && get_task(oid) == ot && g_starts == 0U && g_stops == 0U, "an object without occurrences is refused and changes nothing");
+		SENTINEL("inject no stream");
+	} else if (ot != NULL && owner != requester) {
+		ASSERT(r < 0, "a request from user A for a UID queued by user B is refused");
+		ASSERT(get_task(oid) == ot && ot->t == &g_etasks[5] && g_stops == 0U && g_tfrees == 0U && g_starts == 0U, "... and B's task stays queued, scheduled and untouched");
+#if defined HOME_SAME
+		SENTINEL("inject foreign");
+#endif
+	} else if (ot != NULL) {
+		ASSERT(r == 0 && get_task(oid) == ot && ot->t == &g_new, "adding an existing UID of the same owner replaces the task in place");
+		ASSERT(g_stops == 1U && g_starts == 1U && g_tfrees == 1U, "the old schedule is stopped and released, the new one started");
+		ASSERT(ot->nsim == nsim, "replacing a task keeps the count of its executions still running");
+		ASSERT(echs_task_owner(&g_new) == requester, "the replaced task is owned by the requester");
+#if defined HOME_SAME
+		SENTINEL("inject replace");
+#endif
+	} else {
+		ASSERT(r == 0 && get_task(oid) == &g_spare && g_spare.t == &g_new && g_starts == 1U, "adding a new UID queues and schedules the task");
+		ASSERT(echs_task_owner(&g_new) == requester && g_spare.dflt_cred.u == requester, "the new task is owned by and runs as the requester");
+#if !defined HOME_SAME
+		SENTINEL("inject new");
+#endif
+	}
+	SENTINEL("inject");
+}
